@@ -67,6 +67,9 @@ void pmc_run(const char* config) {
     kind = config[0]; bool wrap = config[1] == 'w'; g_has_send = strchr(config + 3, 's') != nullptr;
     QM = new LockfreeMPMCRingQueue<int, 2>; Qm = new LockfreeMPMCRingQueue<int, 2, uint8_t>;
     QB = new LockfreeBatchMPMCRingQueue<int, 2>; QS = new LockfreeSPSCRingQueue<int, 2>;
+    // unwritten slots hold a recognisable value (a consumer that reads a slot before its producer wrote it must not see a valid element)
+    for (auto& x : QM->slots) x.data = 0x7f7f7f7f; for (auto& x : Qm->slots) x.data = 0x7f7f7f7f;
+    for (auto& x : QB->slots) x = 0x7f7f7f7f; for (auto& x : QS->slots) x = 0x7f7f7f7f;
     if (wrap) {
         // start two steps before the 64-bit index wraps; marks as the previous turn's readers left them
         size_t start = (size_t)-2;
@@ -81,6 +84,9 @@ void pmc_run(const char* config) {
     pmc_window(0);
     mv_init();
     mv_tso(tso);
+    if (strstr(config, ":plain")) {      // the rings' own memory (slots, marks, indices): plain accesses are scheduling points too
+        mv_plain_region(QM, sizeof *QM); mv_plain_region(Qm, sizeof *Qm); mv_plain_region(QB, sizeof *QB); mv_plain_region(QS, sizeof *QS);
+    }
     pmc_window(1);
     std::vector<pthread_t> ts;
     for (size_t i = 0; i < progs.size(); i++) { std::string p = progs[i]; int id = i; ts.push_back(mvp::spawn_os([id, p] { body(id, p); }, "os")); }
@@ -121,6 +127,11 @@ static const PmcConfig CFG[] = {
     {"S0:ppp|ooo",    3, {3,6}, {0,0}, {0,0}, {0,0}, ""},
     {"Sw:sss|rrr",    3, {3,6}, {0,0}, {0,0}, {0,0}, ""},
     {"S0:Pp|Oo",      3, {3,6}, {0,0}, {0,0}, {0,0}, ""},
+    {"M0:pp|oo:plain",   3, {2,4}, {0,0}, {0,0}, {0,0}, "plain slot accesses are scheduling points: a preemption can land between publishing and writing / reading and releasing a slot"},
+    {"Mw:sss|rrr:plain", 3, {2,3}, {0,0}, {0,0}, {0,0}, ""},
+    {"B0:P|p|OO:plain",  3, {2,3}, {0,0}, {0,0}, {0,0}, ""},
+    {"S0:ppp|ooo:plain", 3, {2,4}, {0,0}, {0,0}, {0,0}, ""},
+    {"M0:pp|pp|oooo:plain", 2, {2,3}, {0,0}, {0,0}, {0,0}, ""},
     {"M0:ss|rr:tso",  3, {2,3}, {0,0}, {1,2}, {3,4}, "store-buffer mode (x86-TSO)"},
     {"B0:P|p|OO:tso", 3, {2,2}, {0,0}, {1,2}, {3,3}, ""},
     {"S0:ppp|ooo:tso",3, {2,3}, {0,0}, {1,2}, {3,4}, ""},
